@@ -340,14 +340,14 @@ Section Decompressors.
   (* === session independence: whatever happened before (failed sessions, Close, Close twice,
          reads without Reset, abandoned reads), Reset s followed by ReadAll returns exactly what
          a fresh reader returns on s === *)
-  Lemma session_independent_proof k h s :
-    needs k -> no_crash (run (init k) h) ->
+  Lemma session_independent_proof k :
+    needs k -> forall h s, no_crash (run (init k) h) ->
     exists r,
       run (init k) (h ++ [DReset s; DRead None])
       = run (init k) h ++ [OU (reset_result k (dec_of k dec s)); OR r]
       /\ fresh_read (dec_of k dec s) r.
   Proof.
-    intros Hk NC. destruct (no_crash_after _ _ NC) as (st & A).
+    intros Hk h s NC. destruct (no_crash_after _ _ NC) as (st & A).
     pose proof (after_inv k false _ _ _ Hk (inv_init k) A) as I.
     destruct (step_reset k false st s Hk I) as (E1 & I1 & P1).
     destruct (step_read_positioned k _ _ Hk I1 P1) as (r & E2 & F).
@@ -360,9 +360,9 @@ Section Decompressors.
   Qed.
 
   (* === nothing panics once the first operation is a Reset === *)
-  Lemma no_crash_proof k h : needs k -> starts_with_reset h -> no_crash (run (init k) h).
+  Lemma no_crash_proof k : needs k -> forall h, starts_with_reset h -> no_crash (run (init k) h).
   Proof.
-    intros Hk (s & h' & ->). simpl.
+    intros Hk h (s & h' & ->). simpl.
     destruct (step_reset k false (init k) s Hk (inv_init k)) as (E & I & _).
     destruct (step (init k) (DReset s)) as [st o]. simpl in *. subst o.
     assert (X : is_crash (OU (reset_result k (dec_of k dec s))) = false)
@@ -370,3 +370,260 @@ Section Decompressors.
     rewrite X. intros o [<-|Ho]; [exact X|]. apply (run_no_crash k st h' Hk I o Ho).
   Qed.
 End Decompressors.
+
+(* ====================================================================== *)
+(* compressors                                                            *)
+(* ====================================================================== *)
+Section Compressors.
+  Variable winst : Type.
+  Variable dec : bytes -> dres.
+  Variable wv : winst -> wview.
+  Variable w_zero : winst.
+  Variable w_reset : winst -> winst * ures.
+  Variable w_write : winst -> bytes -> winst * ures * bytes.
+  Variable w_close : winst -> winst * ures * bytes.
+  Hypothesis W : wlib_contract dec winst wv w_reset w_write w_close.
+
+  Notation cstep := (c_step winst w_reset w_write w_close).
+  Notation crun := (c_run winst w_reset w_write w_close).
+  Notation cinit := (c_init winst w_zero).
+
+  Definition cshape (k : wkind) (st : cstate winst) : Prop :=
+    match k, st with
+    | KIdent, CIdent _ => True
+    | KIdent, _ => False
+    | _, CLib _ => True
+    | _, _ => False
+    end.
+
+  Lemma cshape_init k : cshape k (cinit k).
+  Proof. destruct k; exact Logic.I. Qed.
+
+  Lemma cshape_step k st op : cshape k st -> cshape k (fst (fst (cstep st op))).
+  Proof.
+    destruct k, st as [b|w|], op as [|x|]; simpl; try tauto; try (destruct b; simpl; tauto);
+      try (destruct (w_reset w)); try (destruct (w_write w x) as [[? ?] ?]);
+      try (destruct (w_close w) as [[? ?] ?]); simpl; tauto.
+  Qed.
+
+  Lemma crun_dests_nonempty st cur h : snd (crun st cur h) <> [].
+  Proof.
+    revert st cur. induction h as [|op h IH]; intros st cur; simpl; [discriminate|].
+    destruct (cstep st op) as [[st' u] out]. destruct u; try discriminate.
+    - destruct op; [specialize (IH st' [])|specialize (IH st' (cur ++ out))|specialize (IH st' (cur ++ out))];
+        destruct (crun st' _ h); simpl in *; try discriminate; exact IH.
+    - destruct op; [specialize (IH st' [])|specialize (IH st' (cur ++ out))|specialize (IH st' (cur ++ out))];
+        destruct (crun st' _ h); simpl in *; try discriminate; exact IH.
+  Qed.
+
+  (* writes and the Close of one session, on a library writer that is open *)
+  Lemma lib_session ws :
+    Forall is_write ws -> forall w acc em,
+    wv w = WOpen acc em ->
+    exists c, crun (CLib w) em (ws ++ [CClose]) = (repeat UOk (length ws) ++ [UOk], [c]) /\
+              dec c = Body (acc ++ written ws) false.
+  Proof.
+    induction 1 as [|op ws (b & ->) _ IH]; intros w acc em V.
+    - simpl. destruct (wc_close _ _ _ _ _ _ W w acc em V) as (H1 & H2 & H3).
+      destruct (w_close w) as [[w' u] out]. simpl in *. subst u.
+      exists (em ++ out). rewrite app_nil_r. split; [reflexivity|exact H3].
+    - simpl. destruct (wc_write _ _ _ _ _ _ W w acc em b V) as (H1 & H2).
+      destruct (w_write w b) as [[w' u] out]. simpl in *. subst u.
+      destruct (IH w' (acc ++ b) (em ++ out) H2) as (c & E & D).
+      rewrite E. exists c. split; [reflexivity|]. rewrite <- app_assoc in D. exact D.
+  Qed.
+
+  Lemma ident_session ws :
+    Forall is_write ws -> forall cur,
+    crun (CIdent true) cur (ws ++ [CClose]) = (repeat UOk (length ws) ++ [UOk], [cur ++ written ws]).
+  Proof.
+    induction 1 as [|op ws (b & ->) _ IH]; intros cur.
+    - simpl. rewrite !app_nil_r. reflexivity.
+    - simpl. rewrite IH. rewrite <- app_assoc. reflexivity.
+  Qed.
+
+  (* one session from ANY state of a compressor of kind k *)
+  Lemma session_from k st cur ws :
+    cshape k st -> Forall is_write ws ->
+    exists c, crun st cur (CReset :: ws ++ [CClose]) = (UOk :: repeat UOk (length ws) ++ [UOk], [cur; c]) /\
+              dec_of k dec c = Body (written ws) false.
+  Proof.
+    intros S F. destruct k, st as [b|w|]; try contradiction; cbn [c_run c_step dec_of].
+    1: { destruct b; rewrite (ident_session ws F []); eexists; split; reflexivity. }
+    all: destruct (wc_reset _ _ _ _ _ _ W w) as (H1 & H2);
+      destruct (w_reset w) as [w' u]; simpl in H1, H2; subst u;
+      destruct (lib_session ws F w' [] [] H2) as (c & E & D); rewrite E; exists c; split; [reflexivity|exact D].
+  Qed.
+
+  Definition cno_crash (us : list ures) : Prop := forall u, In u us -> u <> UCrash.
+
+  (* === a session after ANY history: Reset d; Write*; Close makes d decode to what was written === *)
+  Lemma compress_session_gen k ws h1 :
+    Forall is_write ws -> forall st cur, cshape k st ->
+    cno_crash (fst (crun st cur h1)) ->
+    let r := crun st cur (h1 ++ CReset :: ws ++ [CClose]) in
+    fst r = fst (crun st cur h1) ++ UOk :: repeat UOk (length ws) ++ [UOk] /\
+    dec_of k dec (last (snd r) []) = Body (written ws) false.
+  Proof.
+    intros F. induction h1 as [|op h1 IH]; intros st cur S NC.
+    - cbn [app]. destruct (session_from k st cur ws S F) as (c & E & D). cbv zeta. rewrite E. simpl.
+      split; [reflexivity|exact D].
+    - cbv zeta. cbn [app c_run] in *. pose proof (cshape_step k st op S) as S'.
+      destruct (cstep st op) as [[st' u] out]. simpl in S'.
+      destruct u.
+      + destruct op.
+        * specialize (IH st' [] S'). pose proof (crun_dests_nonempty st' [] (h1 ++ CReset :: ws ++ [CClose])) as NE.
+          destruct (crun st' [] h1) as [us ds] eqn:E1.
+          destruct (crun st' [] (h1 ++ CReset :: ws ++ [CClose])) as [us2 ds2] eqn:E2. simpl in *.
+          destruct IH as (I1 & I2); [intros x Hx; apply NC; right; exact Hx|].
+          split; [rewrite I1; reflexivity|]. destruct ds2; [congruence|exact I2].
+        * specialize (IH st' (cur ++ out) S').
+          destruct (crun st' (cur ++ out) h1) as [us ds] eqn:E1.
+          destruct (crun st' (cur ++ out) (h1 ++ CReset :: ws ++ [CClose])) as [us2 ds2] eqn:E2. simpl in *.
+          destruct IH as (I1 & I2); [intros x Hx; apply NC; right; exact Hx|].
+          split; [rewrite I1; reflexivity|exact I2].
+        * specialize (IH st' (cur ++ out) S').
+          destruct (crun st' (cur ++ out) h1) as [us ds] eqn:E1.
+          destruct (crun st' (cur ++ out) (h1 ++ CReset :: ws ++ [CClose])) as [us2 ds2] eqn:E2. simpl in *.
+          destruct IH as (I1 & I2); [intros x Hx; apply NC; right; exact Hx|].
+          split; [rewrite I1; reflexivity|exact I2].
+      + destruct op.
+        * specialize (IH st' [] S'). pose proof (crun_dests_nonempty st' [] (h1 ++ CReset :: ws ++ [CClose])) as NE.
+          destruct (crun st' [] h1) as [us ds] eqn:E1.
+          destruct (crun st' [] (h1 ++ CReset :: ws ++ [CClose])) as [us2 ds2] eqn:E2. simpl in *.
+          destruct IH as (I1 & I2); [intros x Hx; apply NC; right; exact Hx|].
+          split; [rewrite I1; reflexivity|]. destruct ds2; [congruence|exact I2].
+        * specialize (IH st' (cur ++ out) S').
+          destruct (crun st' (cur ++ out) h1) as [us ds] eqn:E1.
+          destruct (crun st' (cur ++ out) (h1 ++ CReset :: ws ++ [CClose])) as [us2 ds2] eqn:E2. simpl in *.
+          destruct IH as (I1 & I2); [intros x Hx; apply NC; right; exact Hx|].
+          split; [rewrite I1; reflexivity|exact I2].
+        * specialize (IH st' (cur ++ out) S').
+          destruct (crun st' (cur ++ out) h1) as [us ds] eqn:E1.
+          destruct (crun st' (cur ++ out) (h1 ++ CReset :: ws ++ [CClose])) as [us2 ds2] eqn:E2. simpl in *.
+          destruct IH as (I1 & I2); [intros x Hx; apply NC; right; exact Hx|].
+          split; [rewrite I1; reflexivity|exact I2].
+      + exfalso. apply (NC UCrash); [left; reflexivity|reflexivity].
+  Qed.
+
+  Lemma compress_session_proof k ws h1 :
+    Forall is_write ws ->
+    cno_crash (fst (crun (cinit k) [] h1)) ->
+    let r := crun (cinit k) [] (h1 ++ CReset :: ws ++ [CClose]) in
+    fst r = fst (crun (cinit k) [] h1) ++ UOk :: repeat UOk (length ws) ++ [UOk] /\
+    dec_of k dec (last (snd r) []) = Body (written ws) false.
+  Proof. intros F NC. apply compress_session_gen; [exact F|apply cshape_init|exact NC]. Qed.
+
+  (* === a compressor whose first operation is a Reset never panics === *)
+  Definition wopen_or_closed (st : cstate winst) : Prop :=
+    match st with
+    | CIdent b => b = true
+    | CLib w => wv w = WClosed \/ exists acc em, wv w = WOpen acc em
+    | CSentinel => True
+    end.
+
+  Lemma cstep_safe st op :
+    wopen_or_closed st -> snd (fst (cstep st op)) <> UCrash /\ wopen_or_closed (fst (fst (cstep st op))).
+  Proof.
+    destruct st as [b|w|], op as [|x|]; simpl; intros H; try (subst b; simpl; split; [discriminate|reflexivity]);
+      try (split; [discriminate|exact Logic.I]).
+    - destruct (wc_reset _ _ _ _ _ _ W w) as (H1 & H2). destruct (w_reset w) as [w' u]. simpl in *.
+      split; [congruence|]. right. eauto.
+    - destruct H as [V|(acc & em & V)].
+      + destruct (wc_closed_write _ _ _ _ _ _ W w x V) as (H1 & H2). destruct (w_write w x) as [[w' u] out].
+        simpl in *. split; [exact H1|left; exact H2].
+      + destruct (wc_write _ _ _ _ _ _ W w acc em x V) as (H1 & H2). destruct (w_write w x) as [[w' u] out].
+        simpl in *. split; [congruence|right; eauto].
+    - destruct H as [V|(acc & em & V)].
+      + destruct (wc_closed_close _ _ _ _ _ _ W w V) as (H1 & H2). destruct (w_close w) as [[w' u] out].
+        simpl in *. split; [exact H1|left; exact H2].
+      + destruct (wc_close _ _ _ _ _ _ W w acc em V) as (H1 & H2 & _). destruct (w_close w) as [[w' u] out].
+        simpl in *. split; [congruence|left; exact H2].
+  Qed.
+
+  Lemma crun_safe h : forall st cur, wopen_or_closed st -> cno_crash (fst (crun st cur h)).
+  Proof.
+    induction h as [|op h IH]; intros st cur H u Hu; simpl in Hu; [contradiction|].
+    destruct (cstep_safe st op H) as (NC & H'). destruct (cstep st op) as [[st' u'] out]. simpl in *.
+    destruct u'; try congruence.
+    - destruct op; [pose proof (IH st' [] H') as R; destruct (crun st' [] h)
+                   |pose proof (IH st' (cur ++ out) H') as R; destruct (crun st' (cur ++ out) h)
+                   |pose proof (IH st' (cur ++ out) H') as R; destruct (crun st' (cur ++ out) h)];
+        simpl in *; (destruct Hu as [<-|Hu]; [discriminate|apply R; exact Hu]).
+    - destruct op; [pose proof (IH st' [] H') as R; destruct (crun st' [] h)
+                   |pose proof (IH st' (cur ++ out) H') as R; destruct (crun st' (cur ++ out) h)
+                   |pose proof (IH st' (cur ++ out) H') as R; destruct (crun st' (cur ++ out) h)];
+        simpl in *; (destruct Hu as [<-|Hu]; [discriminate|apply R; exact Hu]).
+  Qed.
+
+  Lemma compress_no_crash_proof k h : cno_crash (fst (crun (cinit k) [] (CReset :: h))).
+  Proof.
+    intros u Hu. cbn [c_run] in Hu.
+    assert (X : snd (fst (cstep (cinit k) CReset)) = UOk /\ wopen_or_closed (fst (fst (cstep (cinit k) CReset)))).
+    { destruct k; simpl; try (split; reflexivity);
+        destruct (wc_reset _ _ _ _ _ _ W w_zero) as (H1 & H2); destruct (w_reset w_zero) as [w' u'];
+        simpl in *; (split; [exact H1|right; eauto]). }
+    destruct (cstep (cinit k) CReset) as [[st' u'] out]. simpl in X. destruct X as (-> & H').
+    pose proof (crun_safe h st' [] H') as R. destruct (crun st' [] h). simpl in *.
+    destruct Hu as [<-|Hu]; [discriminate|apply R; exact Hu].
+  Qed.
+End Compressors.
+
+(* ====================================================================== *)
+(* the pool protocol                                                      *)
+(* ====================================================================== *)
+Lemma pool_starts_with_reset h : pool_history h -> h = [] \/ starts_with_reset h.
+Proof. destruct 1; [left; reflexivity|right..]; eexists; eexists; reflexivity. Qed.
+
+(* ====================================================================== *)
+(* the stand-in codec satisfies the contract (the hypotheses are inhabited) *)
+(* ====================================================================== *)
+Lemma toy_contract loud closed_ok :
+  lib_contract lview toy_dec (fun v => v) NoSrc toy_new (toy_reset closed_ok) (toy_read loud) toy_close.
+Proof.
+  constructor.
+  - reflexivity.
+  - intros s. unfold toy_new, toy_position. destruct (toy_dec s) as [|y e]; simpl.
+    + split; [reflexivity|]. intros i E. inversion E; reflexivity.
+    + eexists; split; reflexivity.
+  - intros i s V. unfold positions, toy_reset, toy_position.
+    destruct i; try congruence; destruct (toy_dec s); simpl; split; reflexivity.
+  - intros i y n ->. simpl. split; reflexivity.
+  - intros i y ->. simpl. split; reflexivity.
+  - intros i y k ->. simpl. destruct (k <? N.of_nat (length y)); simpl.
+    + split; [discriminate|]. right. eexists; reflexivity.
+    + split; [discriminate|]. left; reflexivity.
+  - intros i y e ->. simpl. destruct e; simpl; repeat split; discriminate.
+  - intros i n ->. simpl. split; [discriminate|reflexivity].
+  - intros i ->. simpl. split; [discriminate|reflexivity].
+  - intros i n ->. simpl. split; [discriminate|reflexivity].
+  - intros i ->. simpl. split; [discriminate|reflexivity].
+  - intros i n ->. simpl. right; reflexivity.
+Qed.
+
+Lemma toy_reset_after_close : reset_after_close lview toy_dec (fun v => v) (toy_reset true).
+Proof.
+  intros i s ->. unfold positions, toy_reset, toy_position. destruct (toy_dec s); simpl; split; reflexivity.
+Qed.
+
+Lemma toy_new_total : new_total lview toy_new.
+Proof. intros s. unfold toy_new. destruct (toy_position s). simpl. discriminate. Qed.
+
+(* the stand-in writer buffers everything until Close: nothing has reached the destination before *)
+Definition toy_wv (w : wview) : wview := match w with WOpen acc _ => WOpen acc [] | _ => w end.
+Lemma toy_wcontract : wlib_contract toy_dec wview toy_wv toy_wreset toy_wwrite toy_wclose.
+Proof.
+  constructor.
+  - intros w. split; reflexivity.
+  - intros w acc em b V. destruct w; simpl in V; try discriminate. inversion V; subst. simpl. split; reflexivity.
+  - intros w acc em V. destruct w; simpl in V; try discriminate. inversion V; subst. simpl. repeat split.
+  - intros w b V. destruct w; simpl in V; try discriminate. simpl. split; [discriminate|reflexivity].
+  - intros w V. destruct w; simpl in V; try discriminate. simpl. split; [discriminate|reflexivity].
+Qed.
+
+Lemma toy_needs k : kind_needs k toy_dec (fun v : lview => v) toy_new (toy_reset (kind_closed_ok k)).
+Proof.
+  destruct k; simpl; try exact Logic.I.
+  - apply toy_reset_after_close.
+  - apply toy_new_total.
+Qed.
